@@ -33,3 +33,16 @@ PROP = {
 PROP.setdefault("pre", []).append(facts.make_step(['subscribe.once.closeAfterWalk', 'subscribe.poll.spawn', 'subscribe.walk.order', 'subscribe.sender.loop']))
 PROP["modules"].append("Gnmi.Props.C05L")
 PROP["theorems"] += ["Gnmi.C05L." + t for t in ["once_concurrent", "once_ends_ok", "poll_first_round", "poll_rounds", "poll_trigger_enabled", "poll_eof_ok", "onceInv_reach"]]
+
+# POLL clause over the sequential model (docs/POLL_SEQ_NOTES.md)
+PROP["modules"] += ["Gnmi.Lemmas.SubscribePoll", "Gnmi.Props.C05Poll"]
+PROP["theorems"] += ["Gnmi.C05Poll." + t for t in [
+    "once_static_exact_snapshot", "once_static_exact_once", "poll_initial_exact", "poll_initial_exact_in", "poll_initial_exact_reachable",
+    "poll_origin_conflict", "poll_trigger_exact", "poll_trigger_exact_reachable", "pollSub_exact",
+    "poll_rounds_exact", "poll_rounds_exact_of_good", "poll_sync_count", "subRun_rounds", "prun_shape", "pstep_shape",
+    "feed_leaves_poll", "rounds_sync_count", "round_items", "crun_eq_runS",
+    "eof_ends_ok", "poll_after_eof", "poll_ended", "poll_unknown", "histP_ok", "p1_live"]] + \
+    ["Gnmi.SubPoll." + t for t in [
+        "round_exact", "feedSub_idle", "subscribe_shape", "walkItems_isSome", "walkItems_isSome_congr",
+        "round_pinv", "good_of_reach", "reach_step", "walk_fail", "walk_once", "walk_body", "insertHandle_keys", "walk_fold_keys",
+        "SnapshotOnce.body"]]
